@@ -7,12 +7,14 @@ import (
 	"os"
 
 	"verifharness/drv/c03"
+	"verifharness/drv/c05"
 	"verifharness/drv/c20"
 	rxdrv "verifharness/drv/reactive"
 )
 
 var cmds = map[string]func([]string) error{
 	"c03": c03.Main,
+	"c05": c05.Main,
 	"c20": c20.Main,
 	"reactive": rxdrv.Main,
 }
